@@ -318,26 +318,40 @@ func (x *fnv) runDefers(s *State, fr *frame) {
 }
 
 // runAts applies the at-clauses attached to a call of the named callee.
-func (x *fnv) runAts(s *State, callee string, call *ast.CallExpr) {
+func (x *fnv) runAts(s *State, callee string, call *ast.CallExpr, after bool, results []Value) {
 	if x.fc == nil || len(x.fc.Ats) == 0 {
 		return
 	}
 	// the ordinal of a call site is its position in source order among the calls with the same callee text
 	n := x.callSiteOrd[call]
 	for _, at := range x.fc.Ats {
-		if at.Callee != callee || (at.Nth != 0 && at.Nth != n) {
+		if at.Callee != callee || (at.Nth != 0 && at.Nth != n) || at.After != after {
 			continue
 		}
 		x.atDone[at]++
 		env := x.newSpecEnv(s, x.entry, x.pkg.PkgPath)
 		x.bindLocals(env, nil)
+		if after {
+			for i, r := range results {
+				env.vars[fmt.Sprintf("result%d", i)] = r
+			}
+			if len(results) == 1 {
+				env.vars["result"] = results[0]
+			}
+		}
 		switch at.Kind {
 		case "assert":
 			label := at.Clause.Label
 			if label == "" {
 				label = sanitize(callee)
 			}
-			x.oblige(s, "assert", label, env.goal(at.Clause.Expr), x.curPos, at.Clause)
+			g := env.goal(at.Clause.Expr)
+			x.oblige(s, "assert", label, g, x.curPos, at.Clause)
+			// with witnesses the goal is stronger than the statement; later obligations get the statement too
+			// (its existentials skolemise to constants the solvers' triggers can use)
+			if a := env.assumption(at.Clause.Expr); a != g {
+				s.Assume(a)
+			}
 		case "assume":
 			x.assumeNote("assumed at call " + callee + ": " + at.Clause.Src)
 			s.Assume(env.assumption(at.Clause.Expr))
